@@ -723,7 +723,48 @@ def c11(ctx):
         nontrivial=lambda c: c["sub"]["T"]["k"] in ("struct", "named"),
         assumptions=TCB + ["documented transport limits are not judged: non-finite floats via JSON, integers above MaxInt64 via UBJSON"])
 
+def c13(ctx):
+    rnd = ctx.rng
+    rows = gen_gotypes(ctx)
+    seen, types = set(), []
+    for r in rows:
+        k = json.dumps(r["T"], sort_keys=True)
+        if k not in seen:
+            seen.add(k)
+            types.append(r["T"])
+    cases = []
+    per = 4 if ctx.quick else 16
+    for T in types:
+        for j in range(per):
+            st = gotypes.stream_for(T, rnd, extras=True)
+            v0 = gotypes.zero_vd(T)
+            cases.append(case("C13", "unfold", "go", stream=st, sub=dict(T=T, V0=v0), origin="stream_for"))
+    # generic targets: every stream shape of GenEvents into interface{}
+    for shape in gen_events(ctx, quick=True):
+        if rnd.random() < (0.25 if ctx.quick else 1.0):
+            for st in streams.fills(shape, 1, rnd)[:3]:
+                cases.append(case("C13", "unfold", "go", stream=st, sub=dict(T=dict(k="iface"), V0=gotypes.zero_vd(dict(k="iface"))), origin="GenEvents into interface{}"))
+    number(cases)
+    tf, st = core.run_harness(ctx, cases)
+    failed, nv = core.tlc_validate(ctx, "TraceCodec", tf)
+    info = sum(1 for w in failed.values() if any(r.startswith("INFO:") for r in w))
+    return run.decide(
+        ctx, "TraceCodec", cases, tf, failed, nv, level_note="",
+        rule="targets: every struct/slice/map/pointer/interface type of the TLC-enumerated GenGoType programs (fresh zero variable); "
+             "streams: seeded well-formed object streams built along the target type (members for a random subset of fields under the "
+             "naming rule, numbers of any width that fits, strings and keys by value and by reference, announced and unknown lengths) "
+             "with extra unknown members of every value kind and nesting inserted at random positions, plus every TLC-enumerated stream "
+             "shape of GenEvents (incl. extended events and announced element types) into interface{}; TraceCodec!UnfoldVerdict "
+             "computes the expected result from (type, old value, stream value) with SFGoType!Exp and compares it with the reflection "
+             "projection of the target. Streams whose outcome the property leaves open (shape mismatch, number that does not fit) are "
+             "counted as unspecified and not judged. Distinct = distinct (type, stream); non-trivial = stream with more than 3 events.",
+        nontrivial=lambda c: len(c["stream"]) > 3,
+        extra_cov=dict(unspecified_not_judged=info),
+        assumptions=TCB + ["expected values for int->float conversions and array targets are left unspecified by the model"])
+
+
 PROPS = {
+    "C13": c13,
     "C12": c12,
     "C11": c11,
     "C09": c09,
